@@ -17,20 +17,24 @@ PROPS = {
         'rule': 'one event per encode call; non-trivial = integer inside [-2^63, 2^63-1] or a toggle/nested position; '
                 'distinct = distinct (action, abstract input) pairs',
     },
-    'C03': {'mc': _mc({'module': 'MC_Values', 'cfg': 'MC_Values', 'tier': 'quick'}, {'module': 'MC_Values', 'cfg': 'MC_Values_deep', 'tier': 'thorough'}),
+    'C03': {'gen': s2c.gen_values,
+            'mc': _mc({'module': 'MC_Values', 'cfg': 'MC_Values', 'tier': 'quick'}, {'module': 'MC_Values', 'cfg': 'MC_Values_deep', 'tier': 'thorough'}),
             'rule': 'one event per encode+decode of a field value; every generated value is in the statement\'s domain '
                     '(re-decided by TLC: Encodable03); distinct = distinct abstract inputs'},
-    'C01': {'shards': lambda t: 16 if t == 'quick' else 48,
+    'C01': {'gen': s2c.gen_frames,
+            'shards': lambda t: 16 if t == 'quick' else 48,
             'mc': _mc({'module': 'MC_Frames', 'cfg': 'MC_Frames', 'tier': 'both'}),
             'rule': 'one event per frame.marshal+frame.unmarshal of a method frame with specification-valid arguments; '
                     'distinct = distinct (class, argument values, channel)'},
     'C02': {'mc': _mc({'module': 'MC_Props', 'cfg': 'MC_Props', 'tier': 'both'}),
             'rule': 'one event per content-header round trip; quick: each of the 8192 presence subsets once + random'},
-    'C18': {'mc': _mc({'module': 'MC_Frames', 'cfg': 'MC_Frames', 'tier': 'both'},
+    'C18': {'gen': s2c.gen_frames,
+            'mc': _mc({'module': 'MC_Frames', 'cfg': 'MC_Frames', 'tier': 'both'},
                       {'module': 'MC_Content', 'cfg': 'MC_Content_small', 'tier': 'quick', 'actions': ['Publish', 'Transmit', 'Heartbeat']},
                       {'module': 'MC_Content', 'cfg': 'MC_Content', 'tier': 'thorough'}),
             'rule': 'one event per body / heartbeat / protocol-header round trip; distinct = distinct (payload, channel)'},
-    'C04': {'shards': lambda t: 16 if t == 'quick' else 48,
+    'C04': {'gen': s2c.combine(s2c.gen_values, s2c.gen_frames),
+            'shards': lambda t: 16 if t == 'quick' else 48,
             'mc': _mc({'module': 'MC_Frames', 'cfg': 'MC_Frames', 'tier': 'both'}),
             'rule': 'one event per encoder call (frame.marshal of all five kinds, Frame.marshal(), Properties.marshal(), '
                     'by_type, encode_table_value); every byte compared with the TLA+ reference encoder'},
@@ -45,7 +49,8 @@ PROPS = {
     'C05': {'mc': _mc({'module': 'MC_Frames', 'cfg': 'MC_Frames', 'tier': 'both'}, {'module': 'MC_Values', 'cfg': 'MC_Values_deep', 'tier': 'thorough'}),
             'rule': 'grammar-side generated wire bytes (all 19 tags, unsorted keys, reserved bits, non-UTF-8 long strings, '
                     'values the send side refuses); non-trivial = every event; distinct by byte string'},
-    'C07': {'mc': _mc({'module': 'MC_Frames', 'cfg': 'MC_Frames', 'tier': 'both'}, {'module': 'MC_Stream', 'cfg': 'MC_Stream_3', 'tier': 'thorough'}),
+    'C07': {'gen': s2c.gen_frames,
+            'mc': _mc({'module': 'MC_Frames', 'cfg': 'MC_Frames', 'tier': 'both'}, {'module': 'MC_Stream', 'cfg': 'MC_Stream_3', 'tier': 'thorough'}),
             'rule': 'one CutSet event per valid frame: every strict prefix (strategic cuts for frames > 700 bytes) decoded; '
                     'non-trivial = frame longer than 8 bytes'},
     'C13': {'mc': _mc({'module': 'MC_Catalog', 'cfg': 'MC_Catalog', 'tier': 'both'},
@@ -75,12 +80,13 @@ PROPS = {
             'mc': _mc({'module': 'MC_Stream', 'cfg': 'MC_Stream', 'tier': 'both', 'actions': ['Send', 'DoDeliver', 'TryDecode']},
                       {'module': 'MC_Stream', 'cfg': 'MC_Stream_3', 'tier': 'thorough'}),
             'gen': s2c.gen_stream},
-    'C10': {'mc': _mc({'module': 'MC_Values', 'cfg': 'MC_Values', 'tier': 'quick'}, {'module': 'MC_Values', 'cfg': 'MC_Values_deep', 'tier': 'thorough'}),
+    'C10': {'gen': s2c.gen_values,
+            'mc': _mc({'module': 'MC_Values', 'cfg': 'MC_Values', 'tier': 'quick'}, {'module': 'MC_Values', 'cfg': 'MC_Values_deep', 'tier': 'thorough'}),
             'rule': 'EncodeValue / EncodeArg / RoundTrip events with out-of-range, wrong-typed and boundary values at every '
                     'encoder entry point; non-trivial = every event; the clause only applies when the encoder did not raise'},
     'C12': {'shards': lambda t: 16 if t == 'quick' else 48,
             'mc': _mc({'module': 'MC_Order', 'cfg': 'MC_Order', 'tier': 'both', 'actions': ['AddEntry']}),
-            'gen': s2c.gen_order,
+            'gen': s2c.combine(s2c.gen_order, s2c.gen_values),
             'rule': 'every value encoded twice with deep snapshots before/after (order included); equal-content tables in '
                     'different insertion orders (SameBytes); all frame kinds'},
     'C15': {'mc': _mc({'module': 'MC_Tz', 'cfg': 'MC_Tz', 'tier': 'both', 'actions': ['SetTZA', 'SetTZB', 'Encode', 'Decode']}),
